@@ -72,7 +72,7 @@ type ctxKey struct{}
 // (direct calls) or in the registry keyed by the request id embedded in the item identifier (wire).
 func newExecutor(lookup func(reqID string) *script) *kmipserver.BatchExecutor {
 	ex := kmipserver.NewBatchExecutor()
-	h := kmipserver.HandleFunc(func(ctx context.Context, req kmip.OperationPayload) (kmip.OperationPayload, error) {
+	logic := func(ctx context.Context, req kmip.OperationPayload) (kmip.OperationPayload, error) {
 		id := idOf(req) // "<reqID>/<index>"
 		reqID, idxs, _ := strings.Cut(id, "/")
 		var idx int
@@ -124,10 +124,20 @@ func newExecutor(lookup func(reqID string) *script) *kmipserver.BatchExecutor {
 			}
 		}
 		return nil, errors.New("harness: unexpected outcome")
-	})
+	}
+	h := kmipserver.HandleFunc(logic)
 	for _, op := range routedOps {
 		ex.Route(op, h)
 	}
+	// Activate through a handler with concrete payload types, as applications write them: on failure it returns
+	// (nil, err), and the nil it returns is a typed one
+	ex.Route(kmip.OperationActivate, kmipserver.HandleFunc(func(ctx context.Context, req *payloads.ActivateRequestPayload) (*payloads.ActivateResponsePayload, error) {
+		out, err := logic(ctx, req)
+		if err != nil {
+			return nil, err
+		}
+		return out.(*payloads.ActivateResponsePayload), nil
+	}))
 	return ex
 }
 
